@@ -320,7 +320,15 @@ def krylov_step_excess(calls, hams, target_times, gens=None):
         nv = float(np.linalg.norm(vin))
         err = float(np.linalg.norm(c["out"].reshape(-1) - want)) / nv
         a2 = float(np.linalg.norm(A, 2))
-        if err <= 10 * c["tol"] + 2e-13 * (1 + a2) + 2e-10:  # 2e-10: accuracy floor of torch.linalg.matrix_exp (see C07)
+        nonherm = 0.0
+        if gens is not None:
+            # RydbergLindbladian.__matmul__ forms X - X^dagger: it is the Lindblad generator on Hermitian input only. The anti-Hermitian
+            # part of the incoming matrix (left by earlier steps, bounded separately by the physicality monitor) is propagated by a
+            # different, norm-preserving map, so input and reference may differ by twice its norm.
+            D = int(round(np.sqrt(vin.size)))
+            X = vin.reshape(D, D)
+            nonherm = 4.0 * float(np.linalg.norm(X - X.conj().T)) / 2.0 / nv
+        if err <= 10 * c["tol"] + 2e-13 * (1 + a2) + 2e-10 + nonherm:  # 2e-10: accuracy floor of torch.linalg.matrix_exp (see C07)
             continue
         if not c["happy"] and krylov_model.explained_by_pinned_algorithm(A, vin, herm, c["tol"], c["tol"], 100, c["out"], c["iters"]):
             excess += (err - 10 * c["tol"]) * nv
